@@ -18,12 +18,17 @@ LEVEL_TEXT = ("Visibility, read-back, conflict rejection, abort/timeout cleanup 
 LEVEL_NOTE = ("Lean kernel + standard axioms; model hand-written, tied by correspondence; lease records are opaque 72-byte "
               "strings produced by the real serializer; RangeMap is the harness shim.")
 RULE = ("seeded histories (10-60 ops) of allocate/write/close/abort/disconnect/clock-advance/read/list/dump over 3 storage "
-        "indexes and 7 share numbers against a real StorageServer; a case is one operation; distinct = distinct "
+        "indexes and 7 share numbers against a real StorageServer; half of the histories go through the real "
+        "FoolscapStorageServer front end (remote_allocate_buckets with a canary following foolscap's notifyOnDisconnect / "
+        "dontNotifyOnDisconnect semantics, multi-share requests, remote_write/close/abort on FoolscapBucketWriter, lost "
+        "connections), the rest by direct StorageServer/BucketWriter calls; a case is one operation; distinct = distinct "
         "(history prefix digest, op); non-trivial = every op after the first allocation of the history")
 TRUSTED = ["lean/Tahoe/Storage/Immutable.lean is a hand transcription of storage/immutable.py and the immutable part of storage/server.py",
            "harness/shims/collections_extended (RangeMap stand-in used by BucketWriter._already_written)",
            "lease records are serialised by the real HashedLeaseSerializer (blake2b) and passed to the model as opaque bytes",
-           "twisted.internet.task.Clock as the server clock; os.statvfs patched to a simulated disk"]
+           "twisted.internet.task.Clock as the server clock; os.statvfs patched to a simulated disk",
+           "harness Canary object standing in for a foolscap RemoteReference (Broker.notifyOnDisconnect / dontNotifyOnDisconnect "
+           "semantics: unknown markers ignored, watchers run on connection loss; run immediately instead of via eventually())"]
 ASSUMPTIONS = ["single-threaded server (one reactor): operations on the storage directory do not interleave",
                "no other process modifies the storage directory",
                "os.listdir order and set iteration order are inputs of allocate_buckets (passed to the model)",
@@ -48,6 +53,18 @@ CORPUS = [
 ]
 
 
+CORPUS += [
+    # Foolscap front end: three shares in one request on connection 1, one closed, one aborted, then the
+    # connection is lost: the remaining upload must be aborted, its number allocatable again (seeded C22-b)
+    [["A", 0, [0, 1, 2], 5, 0, 10 ** 9, 1], ["W", 0, 0, "0102030405"], ["C", 0], ["X", 1], ["W", 2, 0, "0a"], ["K", 1],
+     ["S"], ["D"], ["A", 0, [0, 1, 2], 5, 1, 10 ** 9, 2], ["W", 4, 0, "0b0c"], ["C", 4], ["K", 2], ["S"], ["L", 0], ["D"]],
+    # two connections and a direct upload interleaved; losing one connection must not touch the others
+    [["A", 1, [0, 1], 4, 0, 10 ** 9, 1], ["A", 1, [2, 3], 4, 1, 10 ** 9, 2], ["A", 2, [0], 4, 2, 10 ** 9],
+     ["W", 1, 0, "01"], ["W", 2, 0, "02"], ["C", 1], ["K", 1], ["S"], ["W", 2, 1, "03"], ["W", 4, 0, "09"], ["K", 2], ["S"],
+     ["T", 1800], ["S"], ["D"]],
+]
+
+
 def digest(prefix_state, op):
     return hash((prefix_state, repr(op)))
 
@@ -60,7 +77,7 @@ def run(ctx):
     else:
         cases = [("corpus", h, True) for h in CORPUS]
         for i in range(n_hist):
-            cases.append(("gen", U.gen_history(ctx.rng, ctx.rng.choice([10, 25, 40, 60])), False))
+            cases.append(("gen", U.gen_history(ctx.rng, ctx.rng.choice([10, 25, 40, 60]), foolscap=0.5), False))
     lines, impl, recs = [], [], []
     for kind, ops, concrete in cases:
         conc, line, out, viol = U.run_history(ctx, "C22", ops, concrete=concrete)
